@@ -17,7 +17,7 @@ def run(check, tier):
                         "Dataset.copy/_copy_custom_attributes", "origin/sampling/units setters", "validate_ndinfo", "validate_units",
                         "Dataset2d/3d/4d/4dstem.from_array", "Dataset._registry")
     check.bounds.update(ndim="1..5 (shapes (3,), (2,3), (1,3,2), (2,1,3,2), (2,2,1,2,3), incl. length-1 axes; Dataset4dstem for 4-D)",
-                        index="per axis one of 10 entries (ints 0/-1, 6 slices incl. steps 2, 3, -1, lists [0], [n-1,0]); tuple "
+                        index="per axis one of 12 entries (ints 0/-1, NumPy ints, 6 slices incl. steps 2, 3, -1, lists [0], [n-1,0]); tuple "
                               "length 1..ndim; Ellipsis at any position or absent; at most one list",
                         histories="<= 3 operations from 12 kinds with axis selector 0..2, argument 0..3 and in-place flag",
                         data="concrete arange data, float calibration")
@@ -30,24 +30,30 @@ def run(check, tier):
     jobs = [dict(fn="indexing__reach", timeout=60), dict(fn="history__reach", timeout=60)]
     for ndim in (1, 2):
         jobs.append(dict(fn="indexing", fixed=dict(ndim=ndim, stem=False), timeout=t, key=f"indexing:ndim={ndim}"))
-    k0s = list(range(10))
+    k0s = list(range(12))
     for ndim in (3, 4, 5):
-        for k0 in (sorted(rnd.sample(k0s, 3)) if quick else k0s):
+        for k0 in (sorted(rnd.sample(k0s[:10], 2) + [rnd.choice(k0s[10:])]) if quick else k0s):
             fixed = dict(ndim=ndim, k0=k0, stem=False)
             if ndim >= 4:
-                fixed["k2"] = rnd.randrange(10)
+                fixed["k2"] = rnd.randrange(12)
             if ndim >= 4 and quick:
-                fixed["k3"] = rnd.randrange(10)
+                fixed["k3"] = rnd.randrange(12)
             if ndim == 5:
-                fixed["k4"] = rnd.randrange(10)
+                fixed["k4"] = rnd.randrange(12)
             jobs.append(dict(fn="indexing", fixed=fixed, timeout=t, key=f"indexing:ndim={ndim}"))
     for k0 in (rnd.sample(k0s, 2) if quick else k0s):
-        jobs.append(dict(fn="indexing", fixed=dict(ndim=4, k0=k0, k2=rnd.randrange(10), k3=rnd.randrange(10), stem=True),
+        jobs.append(dict(fn="indexing", fixed=dict(ndim=4, k0=k0, k2=rnd.randrange(12), k3=rnd.randrange(12), stem=True),
                          timeout=t, key="indexing:4dstem"))
     none = N_OPS
     for ndim in (1, 2, 3, 4, 5):
         jobs.append(dict(fn="history", fixed=dict(ndim=ndim, stem=False, o2=none, o3=none), timeout=t, key=f"op:ndim={ndim}"))
     jobs.append(dict(fn="history", fixed=dict(ndim=4, stem=True, o2=none, o3=none), timeout=t, key="op:4dstem"))
+    # a copying operation (possibly a no-op: same shape, zero pad, factor 1) followed by an in-place operation on its
+    # result: the result must be a new object and the source must stay untouched
+    for nd in ((2,) if quick else (2, 3)):
+        for o1 in (4, 5, 6, 7, 8, 9, 10):
+            jobs.append(dict(fn="history", fixed=dict(ndim=nd, stem=False, o1=o1, i1=False, a2=rnd.randrange(3), b2=rnd.randrange(4),
+                                                      i2=True, o3=none), timeout=t, key=f"alias:ndim={nd}"))
     combos = [(nd, st, o1) for nd, st in ((2, False), (3, False), (4, True)) for o1 in range(N_OPS)]
     for nd, st, o1 in (rnd.sample(combos, 6) if quick else combos):
         fixed = dict(ndim=nd, stem=st, o1=o1, a2=rnd.randrange(3), b2=rnd.randrange(4), i2=bool(rnd.randrange(2)))
